@@ -12,6 +12,12 @@ func addRequiredKey(node *schema.ObjectNode, key string) {
 		requiredKeys.AddKey(key)
 		node.AddConstraint(requiredKeys)
 	} else {
-		requiredKeys.(*constraint.RequiredKeys).AddKey(key)
+		requiredKeys := requiredKeys.(*constraint.RequiredKeys) //nolint:errcheck // We're sure about this type.
+		for _, k := range requiredKeys.Keys() {
+			if k == key {
+				return // a key inherited twice is required once
+			}
+		}
+		requiredKeys.AddKey(key)
 	}
 }
